@@ -376,6 +376,26 @@ func c04Long(r *mon.Run) {
 			}
 		}
 	}
+	// scalars as a hand-written scanner might read them: what strconv, a lenient number parser or a keyword table takes
+	// but JSON does not (and the valid neighbours), bare, inside a list and as a member value
+	scalarTexts := []string{"-01", "1.", "-.5", "1_000", "0x1p-2", "01", "+1", ".5", "-", "1e", "1e+", "1E5", "-0", "-0.0", "0.0e-0", "Infinity", "-Infinity", "-Inf", "+Inf", "NaN", "-NaN", "inf", "-inf", "nan", "0x10", "1e5", "1E+5", "1.5e-3",
+		"00", "-00", "0.", "0.e1", "1.e1", "1e1.5", "--1", "1-", "0b1", "0o7", "1f", "1d", "1L", "\u0661", "1,000", "1 000", "1e 5", "- 1", "-\n1", "1.0", "\uff11", "1e-0", "1E-00", "2e0", "0e5", "0E+0", "-1E-1", "12345678901234567890", "0.1e1", "1__0", "1e_5", "0_1", "1.5.", "1..5", "1e5e5", "0x", "0X1F", "1p3", "-0x1", "1e+-5",
+		"True", "TRUE", "nul", "nulll", "tru", "truee", "Null", "None", "undefined", "nil", "False", "fals", "true", "false", "null", "t", "n", "f", "yes", "no",
+		"\"a", "'a'", "\"\\x\"", "\"\\u12\"", "\"\t\"", "\"\n\"", "\"\\u12g4\"", "\"\\U0041\"", "\"\\a\"", "\"\\'\"", "\"\\0\"", "\"\x7f\"", "\"\x1f\"", "\"\\/\"", "\"\\ud800\"", "\"a\" ", " \"a\"", "\"a\"\"b\"", "\"", "\"\\\"", "\"\\\\\"", "\"\\\\\\\"\""}
+	sctx := []func(string) string{func(b string) string { return b }, func(b string) string { return "[" + b + "]" }, func(b string) string { return "[0, " + b + "]" }, func(b string) string { return "{\"k\": " + b + "}" }, func(b string) string { return " " + b + " " }}
+	for _, st := range scalarTexts {
+		for k, sc := range sctx {
+			body := sc(st)
+			ok := json.Valid([]byte(body)) && strings.TrimSpace(body) != ""
+			lit := "`" + strings.ReplaceAll(body, "`", "\\`") + "`"
+			for q, c := range lctx {
+				if (k+q)%2 == 1 && k > 0 {
+					continue
+				}
+				lxs = append(lxs, lx{c(lit), ok, fmt.Sprintf("JSON literal %q (scalar spelling, shape %d, context %d)", body, k, q)})
+			}
+		}
+	}
 	// every built-in function name (and near misses) with every argument shape the grammar allows: the grammar knows
 	// no function names, arities or argument kinds - sort_by(a, b) is a sentence like f(a, b)
 	fnNames := append(ref.FunctionNames(), "f", "sort", "sortby", "Sort_by", "max_", "to", "not", "null", "true")
@@ -553,5 +573,77 @@ func c04Random(r *mon.Run) {
 				t.Sample(map[string]interface{}{"sequence": key, "grammatical": gram, "compiled": accepted, "mutation": []string{"none", "insert", "delete", "replace", "swap", "wrap()", "wrap[]", "unpair"}[mut]})
 			}
 		}}
-	r.Exec(w)
+	// every lexeme of the alphabet inserted at, and substituted for, every position of sentences built around calls: what the
+	// grammar allows in one argument position only (an expression reference) must not leak into what is nested below it
+	// (a list, a hash, a filter, a parenthesis, an inner call), whatever state the parser keeps while it is inside a call
+	tmpl := [][]string{
+		{"f", "(", "[", "a", ",", "b", "]", ")"}, {"f", "(", "a", ",", "[", "b", ",", "c", "]", ")"}, {"f", "(", "{", "k", ":", "a", ",", "j", ":", "b", "}", ")"}, {"f", "(", "a", "[?", "b", "]", ")"},
+		{"f", "(", "(", "a", ")", ",", "b", ")"}, {"f", "(", "&", "a", ",", "[", "b", ",", "c", "]", ")"}, {"f", "(", "[", "a", ",", "b", "]", ",", "&", "c", ")"}, {"f", "(", "g", "(", "a", ",", "b", ")", ")"},
+		{"f", "(", "g", "(", "[", "a", ",", "b", "]", ")", ")"}, {"f", "(", "a", ".", "[", "b", ",", "c", "]", ")"}, {"f", "(", "a", "[", "*", "]", ".", "[", "b", ",", "c", "]", ")"}, {"f", "(", "a", "||", "b", ",", "c", "&&", "d", ")"},
+		{"f", "(", "!", "a", ",", "b", ")"}, {"f", "(", "a", "|", "b", ",", "c", ")"}, {"f", "(", "a", "[", "0", "]", ",", "b", "[", "1", ":", "2", "]", ")"}, {"f", "(", "*", ",", "a", ".", "*", ")"}, {"f", "(", "`1`", ",", "'r'", ",", "\"q\"", ")"},
+		{"[", "f", "(", "a", ",", "b", ")", ",", "c", "]"}, {"{", "k", ":", "f", "(", "a", ",", "&", "b", ")", "}"}, {"a", "[?", "f", "(", "b", ",", "c", ")", "]"}, {"f", "(", "a", ")", ".", "g", "(", "b", ",", "c", ")"}, {"f", "(", "a", ",", "b", ")", "[", "0", "]"},
+		{"f", "(", "a", ",", "&", "b", ".", "c", "[", "0", "]", ")"}, {"f", "(", "&", "(", "a", ")", ")"}, {"f", "(", "&", "[", "a", ",", "b", "]", ")"}, {"f", "(", "&", "{", "k", ":", "a", "}", ")"}, {"f", "(", "&", "a", "||", "b", ")"},
+		{"f", "(", "&", "g", "(", "a", ",", "&", "b", ")", ")"}, {"f", "(", "a", ",", "{", "k", ":", "[", "b", ",", "c", "]", "}", ")"}, {"f", "(", "[", "[", "a", ",", "b", "]", ",", "c", "]", ")"}, {"f", "(", "a", "[?", "b", "==", "c", "]", ",", "d", ")"},
+		{"f", "(", "(", "a", ",", "b", ")", ")"}, {"f", "(", "a", ")", "||", "[", "b", ",", "c", "]"}, {"[", "a", ",", "b", "]", "|", "f", "(", "@", ",", "&", "c", ")"}, {"f", "(", "a", "[", "]", ",", "b", ")"}, {"f", "(", "a", ",", "b", ")", ".", "[", "c", ",", "d", "]"},
+	}
+	nRand := tierPick(r, 150, 1500)
+	ins := mon.Workload{Name: "every-lexeme-at-every-position-around-calls", N: len(tmpl) + nRand, Batch: 10,
+		Do: func(i int, t *mon.Tally) {
+			var base []string
+			if i < len(tmpl) {
+				base = tmpl[i]
+			} else {
+				rng := gen.DeriveN(r.Seed, "c04ins", i)
+				g := gen.NewTreeGen(rng)
+				g.MaxDepth = 2
+				g.IllTyped = 0
+				for try := 0; try < 40; try++ {
+					tree := g.Expr(0, gen.WAny)
+					base = gen.Tokens(tree, gen.Min)
+					if len(base) >= 6 && len(base) <= 22 && hasCallTok(base) {
+						break
+					}
+					base = nil
+				}
+				if base == nil {
+					t.Count("skipped: no suitable random sentence")
+					return
+				}
+			}
+			var rec ref.Recognizer
+			for p := 0; p <= len(base); p++ {
+				for _, tok := range c04Alphabet {
+					for mode := 0; mode < 2; mode++ {
+						if mode == 1 && p == len(base) {
+							continue
+						}
+						lex := append([]string{}, base[:p]...)
+						lex = append(lex, tok)
+						lex = append(lex, base[p+mode:]...)
+						types, ok := ref.TokTypes(lex)
+						if !ok {
+							continue
+						}
+						gram, _ := c04Judge(r, t, "every-lexeme-at-every-position-around-calls", i, lex, types, &rec)
+						if gram {
+							t.Count("grammatical after the edit")
+						} else {
+							t.Count("ungrammatical after the edit")
+						}
+					}
+				}
+			}
+			t.Nontrivial("ins:" + strings.Join(base, " "))
+		}}
+	r.Exec(w, ins)
+}
+
+// hasCallTok: does the token sequence contain a function call (a name directly followed by an opening parenthesis)?
+func hasCallTok(lex []string) bool {
+	for k := 1; k < len(lex); k++ {
+		if lex[k] == "(" && len(lex[k-1]) > 0 && (lex[k-1][0] == '_' || lex[k-1][0] >= 'a' && lex[k-1][0] <= 'z' || lex[k-1][0] >= 'A' && lex[k-1][0] <= 'Z') {
+			return true
+		}
+	}
+	return false
 }
